@@ -256,6 +256,11 @@ def run(tier, seed):
                     "evaluations = compilations")
     ck.stop_on_duplicates = False
     cases = [(s, w, []) for s, w in esc_cases() + structure_cases() + after_loop_cases() + matrix_cases()] + corpus_swaps(tier, seed)
+    # one block nested in another (the universe of C01): compiled only; a rotating quarter in the quick tier
+    from nv import universe as U
+    for i, p in enumerate(U.enumerate_nested()):
+        if tier == "thorough" or i % 4 == seed % 4:
+            cases.append((U.source(p), "nested blocks N#%d" % i, U.needs_flags(p)))
     items = []
     for i, (s, w, a) in enumerate(cases):
         osets = OPTSETS if (tier == "thorough" or i % 5 == seed % 5) else [OPTSETS[0], OPTSETS[1 + i % 6]]
